@@ -58,6 +58,9 @@ CLAIMED = {
  "C17": ("exploration",
    "Seeded worlds with resolve_hostname in all letter-case classes and timeouts {none, 0, 1, 500, 1000, 2999, 3000, 3001, 10^6} against a (multi-homed) peer that spells the name in its own case and whose address set changes (added with/without cache-flush, goodbye, TTL 1..120 s), strict / latency / lossy profiles: every reported address justified by a live record learned on the tagged interface; new addresses reported in the accepting step; removals at the end of life (strict: that ms); cached addresses replayed at once; no query at or after the deadline.",
    "7.17", "Completeness and removal timing only for definitely-accepted deliveries in fault-free networks; soundness in all profiles."),
+ "C18": ("exploration",
+   "The simulator owns the interface table and changes it while the daemon runs: seeded worlds with 2-3 interfaces (IPv4 / IPv6 / dual, differing subnets, secondary addresses), 0-4 enable / disable selections of every kind before and after registering a fixed-address service and a service with automatic addressing, then interface events (interface gone, new interface, address vanishes while the interface stays, new address, address moves) interleaved with further selections; peers on every segment and family ask at the end. A reference model (table in force with one check period of grace, selections in call order with last match winning, Addr selections bound to the interface that carried the address) judges every packet with service records: not on an absent interface, not on a disabled channel, not where the service has no address in the subnet, only the addresses that belong on that link; the service with automatic addressing must be reachable on exactly the enabled, present channels with the current addresses. Ingress worlds: a browsing daemon learns instances on two links (one multi-homed), then a link disappears or is disabled by name / index / address / family: removal and re-resolution events within one check period, and no later event lists an address learned on the dead link.",
+   "7.18", "Completeness is demanded for automatic addressing only; a vanished IPv6 address on an interface that stays is outside the statement and only has to be survived."),
  "C19": ("exploration",
    "Seeded search over search histories (browse / resolve_hostname / stop / re-browse / receiver drop) on 1-3 interface hosts over hours to days of virtual time. Silent-network runs demand ms-exact equality between the queries on the wire (per interface and address family) and the 1,2,4...2048,3600 s schedule derived from the call history; responder runs demand that every query is covered by the schedule or a refresh/follow-up/verify allowance. Sampling, not proof; the schedule space per search is small and the cap (hour 1+) is reached in most runs.",
    "7.19", "Trusts the seam (send_to capture, virtual clock), the independent wire parser, and that the lock-step gate does not change loop behaviour; allowances in responder runs are upper bounds."),
